@@ -53,15 +53,21 @@ def shards(tier, seed):
     return out
 
 
-def checker_photo(rng, darsia, shape, dtype):
-    """Photo with an embedded 4x6 colour checker whose colours are an affine distortion of
-    random reference colours.  Returns (array, roi corner voxels, reference colours)."""
+def checker_photo(rng, darsia, shape, dtype, linear_only=False, ref=None):
+    """Photo with an embedded 4x6 colour checker whose colours are an affine (or linear) distortion
+    of random reference colours.  Returns (array, roi corner voxels, reference colours)."""
     import cv2
 
-    ref = rng.uniform(0.15, 0.85, size=(4, 6, 3)).astype(np.float32)
-    A = np.eye(3) + rng.uniform(-0.1, 0.1, size=(3, 3))
-    b = rng.uniform(-0.05, 0.05, size=3)
-    shown = np.clip(ref @ A + b, 0.02, 0.98)
+    if ref is None:
+        ref = rng.uniform(0.25, 0.75, size=(4, 6, 3)).astype(np.float32)
+    for _ in range(100):
+        A = np.eye(3) + rng.uniform(-0.08, 0.08, size=(3, 3))
+        b = np.zeros(3) if linear_only else rng.uniform(-0.04, 0.04, size=3)
+        # the photo shows the colours that the exact inverse map sends back to the reference
+        shown = (np.asarray(ref, float) - b) @ np.linalg.inv(A)
+        if shown.min() > 0.02 and shown.max() < 0.98:  # no clipping: the relation stays exact
+            break
+    shown = np.clip(shown, 0.0, 1.0)
     chk = np.full((326, 500, 3), 0.1, dtype=np.float64)
     rows, cols = [12, 93, 175, 255], [12, 95, 177, 260, 344, 427]
     for r in range(4):
